@@ -66,6 +66,9 @@ def prelude(ft: Features):
             # a rule whose conclusion is ground while its hypotheses are schematic
             ('block', [('e', 'rule-t.0', (TH, A('\\f', V('ph0')))),
                        ('a', 'rule-t', (TH, A('\\g', A('c1'), A('c0'), A('c1'))))]),
+            # the same hypothesis stated twice (one proof is supplied per $e statement)
+            ('block', [('e', 'rule-d.0', (TH, V('ph0'))), ('e', 'rule-d.1', (TH, V('ph0'))),
+                       ('a', 'rule-d', (TH, A('\\g', V('ph0'), V('ph0'), A('c1'))))]),
             # a rule without any metavariable: ground hypothesis, ground conclusion
             ('block', [('e', 'rule-u.0', (TH, A('\\f', A('c0')))),
                        ('a', 'rule-u', (TH, A('\\g', A('c0'), A('c0'), A('c0'))))]),
@@ -159,6 +162,8 @@ def derivations(ft: Features, height: int, npool: int, max_per_level: int = 400)
                             new += 1
             if ft.rules and h1 == h - 1 and new < max_per_level:
                 if add(A('\\f', t1), apply('rule-r', frames, {'ph0': t1}, [tr1]), h):
+                    new += 1
+                if mmref.tree_size(tr1) <= 12 and add(A('\\g', t1, t1, A('c1')), apply('rule-d', frames, {'ph0': t1}, [tr1, tr1]), h):
                     new += 1
         if ft.rules:
             for t1, tr1, h1 in cur:
